@@ -720,6 +720,10 @@ pub fn c19_slice(report: &mut Report) -> u64 {
         ("SIGINT-during-back-off", 3600, true, vec![Sessions(1), Quiet(400), Signal(libc::SIGINT), Exit(0)]),
         ("SIGTERM-during-back-off", 30, true, vec![Sessions(1), Quiet(400), Signal(libc::SIGTERM), Exit(0)]),
         ("SIGHUP-during-back-off", 3600, true, vec![Sessions(1), Quiet(400), Signal(libc::SIGHUP), Sessions(2), Quiet(300), Signal(libc::SIGTERM), Exit(0)]),
+        // very long periods: any u64 the option parses is a configured period
+        ("one-year-period", 31_536_000, false, vec![Sessions(1), Quiet(300), Signal(libc::SIGHUP), Sessions(2), Quiet(300), Signal(libc::SIGTERM), Exit(0)]),
+        ("one-year-period-back-off", 31_536_000, true, vec![Sessions(1), Quiet(400), Signal(libc::SIGTERM), Exit(0)]),
+        ("largest-period", u64::MAX, false, vec![Sessions(1), Quiet(300), Signal(libc::SIGTERM), Exit(0)]),
     ];
     let results: Vec<(&str, Vec<(String, String)>, Value)> = cases.par_iter().map(|(name, period, fails, steps)| (*name, daemon_e2e(&format!("C19-{name}"), *period, *fails, steps), json!({"agent": "vagent (the agent's own main)", "frequency": period, "first_run_fails": fails, "steps": format!("{steps:?}")}))).collect();
     let n = results.len() as u64;
